@@ -23,12 +23,12 @@ def main(tier):
     mc = run_tlc("PyDRexMC", workers=16, timeout=1500)
     chk.add_tlc("PyDRexMC", mc, "Layer-B machine, all reachable states: AppendOnly (one snapshot per update, earlier ones untouched), ShapeOK, FailureAtomic")
     quiet_pydrex()
-    num = 50 if quick else 3000
+    num = 50 if quick else 800
     depth = 14 if quick else 40
     # the simulation config bounds behaviours by MaxOps; thorough uses longer histories
     behs, sim = layerb.generate_behaviours("PyDRexC01", "PyDRexC01" if quick else "PyDRexC01_thorough", num, depth, SEED + 101)
     chk.add_tlc("PyDRexC01(simulate)", sim, f"{num} random update histories")
-    nlong = 8 if quick else 300
+    nlong = 8 if quick else 80
     longs, lsim = layerb.generate_behaviours("PyDRexC01", "PyDRexC01_long", nlong, 16, SEED + 102)
     chk.add_tlc("PyDRexC01_long(simulate)", lsim, f"{nlong} long single-mineral histories (13 updates, M* 125/200, chi = 0): grains shrink towards zero volume")
     seeds, sres = layerb.enumerate_behaviours("PyDRexC01", "PyDRexC01_seed", workers=4)
